@@ -55,7 +55,26 @@ def run(facts, rep, tier):
             for v in n.vars:
                 if '[' in v['ctype'] and v['ctype'].split('[')[0].strip() in ('char', 'unsigned char', 'signed char'):
                     arrays[v['decl']] = (v, n)
-    if not arrays: rep.anchor_missing('local buffer', 'get() has no fixed-size local char array any more')
+    no_buffer = False
+    if not arrays:
+        # no fixed-size buffer in get(): LO.1 holds if none exists in the helpers it calls either and nothing copies raw bytes
+        seen = {}; work = [f]
+        while work:
+            g = work.pop()
+            if g.name in seen or len(seen) > 40: continue
+            seen[g.name] = g
+            for n in g.nodes():
+                if n.k == 'call' and n.callee_in_root:
+                    for t in facts.resolve(n):
+                        if t.file.endswith('LocaleInfo.cpp'): work.append(t)
+        arr2 = [(g, v) for g in seen.values() for n in g.nodes() if n.k == 'decl' for v in n.vars if '[' in v['ctype'] and v['ctype'].split('[')[0].strip() in ('char', 'unsigned char', 'signed char') and not v['ctype'].startswith('const')]
+        raw = [(g, n) for g in seen.values() for n in g.nodes() if n.k == 'call' and (n.calleeq or '').split('::')[-1] in set(WRITERS) | UNBOUNDED]
+        if not arr2 and not raw:
+            no_buffer = True
+            rep.ok('LO.1', f'no fixed-size character buffer is declared and no raw byte writer (memcpy / strcpy / …) is called in get() or the {len(seen) - 1} helper(s) it reaches: nothing can be overrun', f.shortloc())
+        else:
+            g0, x0 = (arr2 or raw)[0]
+            rep.inconclusive('LO.1', 'local buffer', g0.shortloc(), f'the fixed-size buffer / raw writer moved into the helper {g0.name}: the guard analysis is written for get() itself')
     nw = 0
     for n in f.nodes():
         if n.k != 'call': continue
@@ -94,7 +113,7 @@ def run(facts, rep, tier):
                 else:
                     ok, why = bounded(f, n, idx, size - 1)
                     rep.check(ok, 'LO.1', f'{b.name}[{idx.text()[:30]}] = …: index bounded', n.shortloc(), why, key=f'LO.1|idxguard|{idx.text()[:30]}', fn=f.name)
-    rep.floor('writes into the local buffer', nw, 3)
+    if not no_buffer and arrays: rep.floor('writes into the local buffer', nw, 3)
     # ---- LO.2 / LO.3 ---------------------------------------------------------------------------------------------------------
     infos = [v for n in f.nodes() if n.k == 'decl' for v in n.vars if v['ctype'].endswith('LocaleInfo::Info')]
     if len(infos) != 1:
@@ -144,6 +163,12 @@ def run(facts, rep, tier):
         for e in cfg.blocks[pos[0]].elems[:pos[1]]:
             if e.node is not None: cur |= gen_of(e.node) - {'@reset'}
         return cur
+    # the result object handed to a helper by reference: the helper may assign any field (the must-assigned analysis stops being exact)
+    escapes = [n for n in f.nodes() if n.k == 'call' and n.callee_in_root and n.ck != 'op' and any(a is not None and guards.strip_casts(a).k == 'ref' and guards.strip_casts(a).decl == R for a in n.ns('args'))]
+    foreign_returns = [n for n in f.nodes() if n.k == 'return' and n.n('sub') is not None and not any(x.k == 'ref' and x.decl == R for x in n.n('sub').walk())]
+    exact = not escapes and not foreign_returns
+    if not exact:
+        rep.inconclusive('LO.2', 'result object', (escapes or foreign_returns)[0].shortloc(), ('the result is filled in by a helper that receives it by reference' if escapes else 'some returns deliver the result of a helper instead of the local result object') + ': definite assignment is not followed through helpers')
     # witness: `languages` is appended exactly where languageCode is set
     appends = [n for n in f.nodes() if n.k == 'call' and n.callee_base() in ('emplace_back', 'push_back', 'emplace_front', 'push_front') and n.n('object') is not None and res_field(n.n('object')) == 'languages']
     lc_sets = [n for n in f.nodes() if n.k == 'binop' and n.op == '=' and res_field(n.n('lhs')) == 'languageCode']
@@ -152,8 +177,9 @@ def run(facts, rep, tier):
         pa = cfg.position(a)
         same_block = [s for s in lc_sets if cfg.position(s.n('lhs')) is not None and cfg.position(s.n('lhs'))[0] == pa[0]] if pa else []
         if not same_block: paired = False
-    rep.check(paired, 'LO.2', f'languages is appended to only together with an assignment of languageCode ({len(appends)} sites)', appends[0].shortloc() if appends else f.shortloc(),
-              'the languages list is not a witness of languageCode any more', key='LO.2|witness-pairing', fn=f.name)
+    if appends or exact:
+        rep.check(paired, 'LO.2', f'languages is appended to only together with an assignment of languageCode ({len(appends)} sites)', appends[0].shortloc() if appends else f.shortloc(),
+                  'the languages list is not a witness of languageCode any more', key='LO.2|witness-pairing', fn=f.name)
     # reads of result fields before assignment
     for n in f.nodes():
         fl = res_field(n) if n.k == 'member' else None
@@ -166,7 +192,7 @@ def run(facts, rep, tier):
                               f'`{(par or n).text()[:60]}` reads {fl}, which has no default initialiser and is not assigned on every path to this point: the value is indeterminate (whatever the caller\'s storage held), so the test decides nothing',
                               key=f'LO.2|uninit-read|{fl}', fn=f.name)
     rets = [n for n in f.nodes() if n.k == 'return' and n.n('sub') is not None and any(x.k == 'ref' and x.decl == R for x in n.n('sub').walk())]
-    rep.floor('return statements', len(rets), 2)
+    if exact: rep.floor('return statements', len(rets), 2)
     nfall = 0
     for r in rets:
         asg = assigned_at(r)
@@ -200,9 +226,11 @@ def run(facts, rep, tier):
                     # evaluated after the last append that can reach this return
                     if all(not (cfg.reaches(a, ap) and cfg.reaches(ap, r)) for ap in appends) and not any('@reset' in gen_of(x) and cfg.reaches(a, x) and cfg.reaches(x, r) for x in f.nodes()): witness = True
             if witness: missing.remove('languageCode')
+        if missing and not exact:
+            rep.inconclusive('LO.2', f'return at line {r.line}', r.shortloc(), f'{missing} not assigned in get() itself (a helper may assign them)'); continue
         rep.check(not missing, 'LO.2', f'return at line {r.line}: languageCode/country/countryCode assigned (languageCode via the non-empty languages witness: {witness})', r.shortloc(),
                   f'{missing} may be unassigned at this return: for an unknown language with a known country the caller receives an indeterminate pointer and no error', key=f'LO.2|return|{",".join(missing)}', fn=f.name)
-    rep.check(nfall >= 1, 'LO.2', 'a fallback return exists', f.shortloc(), 'no fallback path', key='LO.2|nofallback', fn=f.name)
+    if nfall >= 1 or exact: rep.check(nfall >= 1, 'LO.2', 'a fallback return exists', f.shortloc(), 'no fallback path', key='LO.2|nofallback', fn=f.name)
     # LO.3: table provenance of the non-fallback assignments
     loops = [n for n in f.nodes() if n.k == 'rangefor']
     loopvars = {l.var['decl']: (l.n('range').qname or l.n('range').name if l.n('range') is not None and l.n('range').k == 'ref' else None) for l in loops}
@@ -214,12 +242,16 @@ def run(facts, rep, tier):
             fl = res_field(n.n('lhs'))
             want_tbl = 'languageInfo' if fl == 'languageCode' else 'countryInfo'
             want_mem = 'value' if fl == 'country' else 'code'
+            if not ok and v is not None and v.k == 'member' and v.name == want_mem:
+                rep.inconclusive('LO.3', f'result.{fl} = {v.text()[:30]}', n.shortloc(), f'`{v.text()[:30]}` is not a member of a range-for variable over a table: its origin is not followed'); continue
             ok = bool(ok) and loopvars[v.n('base').decl].endswith(want_tbl) and v.name == want_mem
             rep.check(ok, 'LO.3', f'result.{fl} = {v.text()[:30] if v is not None else "?"} is the {want_mem} of a {want_tbl} entry', n.shortloc(), f'{fl} is taken from {v.text()[:40] if v is not None else "?"}', key=f'LO.3|prov|{fl}', fn=f.name)
     for a in appends:
         x = guards.strip_casts(a.ns('args')[0]) if a.ns('args') and a.ns('args')[0] is not None else None
         if x is not None and x.k == 'str': continue
         ok = x is not None and x.k == 'member' and x.name == 'value' and x.n('base') is not None and x.n('base').k == 'ref' and (loopvars.get(x.n('base').decl) or '').endswith('languageInfo')
+        if not ok and x is not None and x.k == 'member' and x.name == 'value':
+            rep.inconclusive('LO.3', 'languages entries are names of languageInfo entries', a.shortloc(), f'`{x.text()[:30]}` is not a member of a range-for variable over the table: its origin is not followed'); continue
         rep.check(ok, 'LO.3', 'languages entries are names of languageInfo entries', a.shortloc(), f'appends {x.text()[:40] if x is not None else "?"}', key='LO.3|prov|languages', fn=f.name)
     # ---- LO.4 ----------------------------------------------------------------------------------------------------------------
     for tbl, cnt in (('languageInfo', 'languagesCount'), ('countryInfo', 'countiesCount')):
